@@ -15,9 +15,10 @@ CHECKS = {
               "are released one at a time by a drawn tape. Oracle: reply == sha256(own request)||len||pad, handler ran exactly once with the caller's bytes, "
               "one request and one response envelope per id on the tap; plus a smoke job (TestC01Net) running 1..16 concurrent unary calls over a real loopback WebSocket pair and over two GoatOverHttp endpoints (wall-clock budget, overrun = inconclusive). Non-trivial = (>=2 calls and reply order != request order on the wire) or a request that is empty or >=16KiB; "
               "distinct = distinct canonical case JSON (64-bit hash)."
-              " Virtual time passes (0/1/20/2000 ms) at every quiescent point of the generated schedule, so that timers inside the code under test fire while handlers are parked."),
-        jobs=[dict(test="TestC01", quick=1920, thorough=24000), dict(test="TestC01Net", quick=64, thorough=1000, shards=4), dict(test="TestC01Reuse", quick=200, thorough=2000, shards=4)],
-        floors={"TestC01:reordered=true": 0.15, "TestC01:topo=proxy": 0.1, "TestC01:topo=demux": 0.1, "TestC01:ser=true": 0.25, "TestC01:time_passes=true": 0.3, "TestC01:stats=true": 0.1},
+              " Virtual time passes (0/1/20/2000 ms) at every quiescent point of the generated schedule, so that timers inside the code under test fire while handlers are parked."
+              " repeat: 1..3 unary methods called again and again (2..6 rounds of 1..4 concurrent calls, every topology, with or without metadata and deadline): every call gets its own handler's reply to its own request, each handler runs once per call - the main sub-check gives every call a method of its own."),
+        jobs=[dict(test="TestC01", quick=1920, thorough=24000), dict(test="TestC01Net", quick=64, thorough=1000, shards=4), dict(test="TestC01Reuse", quick=200, thorough=2000, shards=4), dict(test="TestC01Repeat", quick=1600, thorough=16000)],
+        floors={"TestC01:reordered=true": 0.15, "TestC01:topo=proxy": 0.1, "TestC01:topo=demux": 0.1, "TestC01:ser=true": 0.25, "TestC01:time_passes=true": 0.3, "TestC01:stats=true": 0.1, "TestC01Repeat:repeat.topo=proxy": 0.08, "TestC01Repeat:repeat.plain_calls=true": 0.2},
         assumptions=COMMON_ASSUMPTIONS,
     ),
     "C02": dict(
@@ -28,9 +29,10 @@ CHECKS = {
               "envelope delivery optionally released one at a time by a drawn tape. Oracle (history invariant): handler-received == caller-sent up to where the handler stopped reading, io.EOF exactly after half-close, "
               "caller-received == handler-sent complete and in order, terminal receive is io.EOF iff the handler returned nil, repeated receives after the end never yield data. "
               "Non-trivial = envelopes of >=2 calls interleaved on one connection, or >=11 messages one way, or separate sender/receiver goroutines; distinct = canonical case JSON hash."
-              " burst: 2..64 bidi streams opened in the same instant (optionally through a spin barrier at the verif hook point in front of the id allocation, groups of 2/4/8 callers leaving it within nanoseconds), 1..4 messages each, 1..3 rounds; every stream receives exactly the echoes of its own messages and io.EOF, every handler instance sees one caller's messages only. writefault: one body or half-close write of a client-streaming exchange fails while reads stay healthy (fault error value drawn from kit.FaultErrKinds): the Send reports the failure or the message arrives."),
+              " burst: 2..64 bidi streams opened in the same instant (optionally through a spin barrier at the verif hook point in front of the id allocation, groups of 2/4/8 callers leaving it within nanoseconds), 1..4 messages each, 1..3 rounds; every stream receives exactly the echoes of its own messages and io.EOF, every handler instance sees one caller's messages only. writefault: one body or half-close write of a client-streaming exchange fails while reads stay healthy (fault error value drawn from kit.FaultErrKinds): the Send reports the failure or the message arrives."
+              " Conversation cases may be preceded by 0..2 calls on an already cancelled context on every connection (they fail, and must leave the connection as good as new)."),
         jobs=[dict(test="TestC02", quick=4800, thorough=40000), dict(test="TestC02Race", quick=200, thorough=2000, shards=4), dict(test="FuzzC02", kind="fuzz", quick=0, thorough=90), dict(test="TestC02Fault", quick=300, thorough=3000, shards=4), dict(test="TestC02Burst", quick=800, thorough=8000)],
-        floors={"TestC02:interleaved=true": 0.2, "TestC02:concurrent=true": 0.1, "TestC02:msgs>=11": 0.05, "TestC02:kind=client": 0.1, "TestC02:kind=server": 0.1, "TestC02:kind=bidi": 0.2, "TestC02:arm_end=true": 0.1, "TestC02Burst:burst.spin_barrier=true": 0.4},
+        floors={"TestC02:interleaved=true": 0.2, "TestC02:concurrent=true": 0.1, "TestC02:msgs>=11": 0.05, "TestC02:kind=client": 0.1, "TestC02:kind=server": 0.1, "TestC02:kind=bidi": 0.2, "TestC02:arm_end=true": 0.1, "TestC02Burst:burst.spin_barrier=true": 0.4, "TestC02:dead_calls_before=true": 0.15},
         assumptions=COMMON_ASSUMPTIONS,
     ),
     "C03": dict(
@@ -39,9 +41,10 @@ CHECKS = {
               "before any message, mid-stream or after the last message, with trailers; oracle model.Status: success iff handler returned nil, code+message+details equal (proto.Equal), wrapped keeps code/details and contains the message, non-status errors are non-OK and carry the text. "
               "foreign: scripted peer instead of a goat server, 15 reply shapes (explicit OK status+body, status without trailer metadata, status+body, reset alone / without trailer / before / after the trailer, trailer without status...). "
               "race: the server's trailer Write is parked while the caller sends 1..4 more bodies, then released (reset vs trailer). "
-              "Non-trivial = non-OK outcome with >=1 detail, or mid-stream failure position, or any foreign/race case; distinct = canonical case hash."),
+              "Non-trivial = non-OK outcome with >=1 detail, or mid-stream failure position, or any foreign/race case; distinct = canonical case hash."
+              " Callers optionally use the API in unusual but legal orders: CloseSend twice; further receives after the end (which must report the same outcome again)."),
         jobs=[dict(test="TestC03", quick=4800, thorough=40000), dict(test="TestC03Foreign", quick=800, thorough=10000, shards=4), dict(test="TestC03Race", quick=400, thorough=5000, shards=4), dict(test="FuzzC03", kind="fuzz", quick=0, thorough=90)],
-        floors={"TestC03:pos=mid-stream": 0.03, "TestC03:intercept=true": 0.1},
+        floors={"TestC03:pos=mid-stream": 0.03, "TestC03:intercept=true": 0.1, "TestC03:api_order=close-twice": 0.05},
         assumptions=COMMON_ASSUMPTIONS,
     ),
     "C04": dict(
@@ -50,8 +53,9 @@ CHECKS = {
               "handlers calling SetHeader 0..3 times, optional SendHeader, headers leaving with first message or with the status, late SetHeader, SetTrailer 0..3 times, grpc.SetHeader/SendHeader/SetTrailer in unary handlers, trailers with error returns. "
               "Oracle model.MD (independent join/lower-case/base64 implementation): handler's incoming metadata, Header(), Trailer(), unary InHeader (recording stats handler) and the tap (decoded by the model) all equal the model; response metadata only on the first response envelope. "
               "Non-trivial = a -bin value with NUL or non-UTF-8 bytes, or a key with >=2 values, or >=2 set calls; distinct = canonical case hash."
-              " reuse: one header MD, one trailer MD and one outgoing-context MD object are kept by the application and passed again in each of 2..5 calls (together with per-call sets); each call must observe exactly its own sets and the application's objects must be left unchanged."),
-        jobs=[dict(test="TestC04", quick=4800, thorough=50000), dict(test="TestC04Foreign", quick=800, thorough=10000, shards=4), dict(test="FuzzC04", kind="fuzz", quick=0, thorough=90), dict(test="TestC04Conc", quick=300, thorough=3000, shards=4), dict(test="TestC04Reuse", quick=800, thorough=8000)],
+              " reuse: one header MD, one trailer MD and one outgoing-context MD object are kept by the application and passed again in each of 2..5 calls (together with per-call sets); each call must observe exactly its own sets and the application's objects must be left unchanged."
+              " servectx: the context passed to Serve is cancelled while the connection keeps serving; handlers started afterwards must still see the request metadata."),
+        jobs=[dict(test="TestC04", quick=4800, thorough=50000), dict(test="TestC04Foreign", quick=800, thorough=10000, shards=4), dict(test="FuzzC04", kind="fuzz", quick=0, thorough=90), dict(test="TestC04Conc", quick=300, thorough=3000, shards=4), dict(test="TestC04Reuse", quick=800, thorough=8000), dict(test="TestC04ServeCtx", quick=480, thorough=4800)],
         floors={"TestC04:md-nontrivial": 0.3, "TestC04:hdr-via=sendheader": 0.03, "TestC04:hdr-via=first-message": 0.05, "TestC04:hdr-via=with-trailer": 0.05, "TestC04:unary": 0.1},
         assumptions=COMMON_ASSUMPTIONS,
     ),
@@ -62,8 +66,9 @@ CHECKS = {
               "s->c = HEADER? BODY* TRAILER(status) then only resets answering a late body, trailer present iff the handler returned on a live un-reset stream, no reset before that trailer; constant method/source/destination, swapped in responses; "
               "response metadata only on the first response envelope; server emits only ids it has read. Non-trivial = a projection with >=4 envelopes or a reset, or an early handler return; distinct = canonical case hash."
               " unary-cancel: 1..6 unary calls whose caller cancels or times out while the handler runs or while the reply's transport write is pending; the history must still show exactly one request envelope and at most one response per id, and each handler runs once."
-              " ended-at-open: 1..6 calls (all kinds) whose context is already cancelled or expired when they start, or ends while their first envelope is parked in the transport; whatever reaches the wire must be nothing or a proper opening (a reset as the first envelope of an id is rejected)."),
-        jobs=[dict(test="TestC06", quick=4800, thorough=60000), dict(test="TestC06Race", quick=300, thorough=3000, shards=4), dict(test="TestC06Cancel", quick=240, thorough=3000), dict(test="TestC06Unary", quick=800, thorough=8000), dict(test="TestC06Open", quick=800, thorough=8000)],
+              " ended-at-open: 1..6 calls (all kinds) whose context is already cancelled or expired when they start, or ends while their first envelope is parked in the transport; whatever reaches the wire must be nothing or a proper opening (a reset as the first envelope of an id is rejected)."
+              " server-deadline: a scripted peer opens a stream with a 30 ms grpc-timeout, the handler lingers past it, 1..4 more bodies arrive, then the handler sends 0..2 messages and returns: no server reset for the still open stream, nothing after the trailer, exactly one trailer."),
+        jobs=[dict(test="TestC06", quick=4800, thorough=60000), dict(test="TestC06Race", quick=300, thorough=3000, shards=4), dict(test="TestC06Cancel", quick=240, thorough=3000), dict(test="TestC06Unary", quick=800, thorough=8000), dict(test="TestC06Open", quick=800, thorough=8000), dict(test="TestC06Deadline", quick=800, thorough=8000)],
         floors={"TestC06:family=c01": 0.1, "TestC06:family=c02": 0.2, "TestC06:family=c03": 0.1, "TestC06:family=c04": 0.1, "TestC06:early_return=true": 0.1},
         assumptions=COMMON_ASSUMPTIONS,
     ),
@@ -74,11 +79,12 @@ CHECKS = {
               "more than 8 digits (which goat's own client emits above 99999999 ms) may be ignored or read exactly, nothing else. end to end in a synctest bubble (virtual clock): caller timeouts from expired to 10^4h, unary and streams, 0..250ms virtual transit, "
               "or a scripted client sending the header with the key in four spellings; oracle: handler has a deadline iff the caller has, D_caller-1ms <= D_handler <= D_caller+transit, remainder <1ms conveyed as exactly 1ms, header value -> arrival+model value, malformed -> no deadline. "
               "Non-trivial = boundary digit count (1 or 8), saturating product, malformed/overlong class, remainder <1ms, non-canonical key spelling; distinct = distinct input string / case."
-              " flood: 2..5 rounds of 2..32 unary calls drawn from two timeout values per round, released from one gate on 1..3 connections of one server; each handler's deadline must be its own caller's."),
+              " flood: 2..5 rounds of 2..32 unary calls drawn from two timeout values per round, released from one gate on 1..3 connections of one server; each handler's deadline must be its own caller's."
+              " abandon: 2..5 calls issued one after the other, all but the last cancelled while their request is written but not yet delivered (delayed delivery, by-reference or serialising link); each handler gets the deadline its own request carried."),
         jobs=[dict(test="TestC08Grid", kind="enum", quick=1, thorough=1, shards=1),
               dict(test="TestC08Strings", quick=24000, thorough=1000000),
               dict(test="TestC08E2E", quick=1600, thorough=60000),
-              dict(test="FuzzC08", kind="fuzz", quick=0, thorough=180), dict(test="TestC08Conc", quick=400, thorough=4000, shards=4), dict(test="TestC08Flood", quick=1600, thorough=16000)],
+              dict(test="FuzzC08", kind="fuzz", quick=0, thorough=180), dict(test="TestC08Conc", quick=400, thorough=4000, shards=4), dict(test="TestC08Flood", quick=1600, thorough=16000), dict(test="TestC08Abandon", quick=800, thorough=8000)],
         floors={"TestC08Strings:parser.valid": 0.1, "TestC08Strings:parser.malformed": 0.3, "TestC08Strings:parser.overlong": 0.03, "TestC08E2E:e2e.api": 0.1, "TestC08E2E:e2e.header.valid": 0.03, "TestC08E2E:e2e.api-expired.lt1ms": 0.03},
         assumptions=COMMON_ASSUMPTIONS + ["the timeout parser is reached through the verif-tagged export VerifParseGrpcTimeout (same function the server calls)"],
     ),
@@ -123,7 +129,8 @@ CHECKS = {
               "the connection ends by a read failure after p delivered request envelopes, by a failure of the j-th response write, or by Server.Stop() after p deliveries (p, j drawn over the whole trace). "
               "Oracle at the quiescent point after the ending: Serve has returned - but not while a context-ignoring streaming handler is still running; every streaming handler has finished; the context of every in-flight handler, unary included, is done; "
               "after the context-ignoring unary handlers have been released and returned, the synctest bubble ends with no goroutine left. Non-trivial = >=1 unary and >=1 stream in flight, or a handler parked in send."
-              " Stream kind sdl carries a 30 ms grpc-timeout and 50 ms of virtual time may pass before the ending, so that handlers that returned DeadlineExceeded have their trailers in flight when the connection ends."),
+              " Stream kind sdl carries a 30 ms grpc-timeout and 50 ms of virtual time may pass before the ending, so that handlers that returned DeadlineExceeded have their trailers in flight when the connection ends."
+              " 0..12 unary requests: with more than eight (goat's unary workers per connection) only Stop is used as the ending."),
         jobs=[dict(test="TestC10", quick=4800, thorough=30000), dict(test="FuzzC10", kind="fuzz", quick=0, thorough=90)],
         floors={"TestC10:ending=readfail": 0.2, "TestC10:ending=writefail": 0.2, "TestC10:ending=stop": 0.15, "TestC10:parked-in-send": 0.1, "TestC10:orphan=true": 0.2},
         assumptions=COMMON_ASSUMPTIONS + ["cancelling the context passed to Serve is not among the endings the property lists and is not generated"],
@@ -133,7 +140,8 @@ CHECKS = {
         rule=("scripted peer against a goat server; alphabet of 27 envelope shapes (valid unary, unary without body / with undecodable -bin metadata / wrong destination / garbage body, unknown service, unknown method, unparsable and empty method, no header, empty envelope, stream open, open with bad metadata / wrong destination / 2-hop route record, body, garbage body, open and body for a stream whose handler reads one message and then lingers without reading until just before the probe, OK and error trailers, reset, reset of unknown type, body+trailer, timeout headers 1n and 99999999H, response-shaped envelope) x stream ids {1,2} = 54 symbols. "
               "(a) bounded-exhaustive: every sequence of length<=2 (2970) plus a seeded 1/40 sample of length 3 in the quick tier; every sequence of length<=3 (160434) plus a 1/20 sample of length 4 in the thorough tier; (b) rapid sequences of length 1..40; each sequence is followed by a valid probe request on a fresh id, the bubble settles after every envelope. "
               "Oracle (invariants, not an exact model): process alive, Serve still running, probe answered exactly; unary handler runs == well-formed unary requests (requests without a body may or may not run it), every run answered exactly once with a well-formed swapped-address response, refusals only for undecodable requests; "
-              "stream handler starts <= well-formed opens and >=1 if any; a body for a never-opened id is answered by a reset for that id; resets only with such a trigger; no envelope for an id never received. Non-trivial = sequence mixes malformed and well-formed envelopes or touches an id twice."),
+              "stream handler starts <= well-formed opens and >=1 if any; a body for a never-opened id is answered by a reset for that id; resets only with such a trigger; no envelope for an id never received. Non-trivial = sequence mixes malformed and well-formed envelopes or touches an id twice."
+              " Configurations rotate / are drawn: server stats handler; unary handlers that call SetHeader, SendHeader twice, SetHeader and SetTrailer."),
         jobs=[dict(test="TestC12Enum", kind="enum", quick=1, thorough=1), dict(test="TestC12", quick=3200, thorough=40000), dict(test="FuzzC12", kind="fuzz", quick=0, thorough=150), dict(test="TestC12Reuse", quick=300, thorough=3000, shards=4)],
         assumptions=COMMON_ASSUMPTIONS,
         exhaustive_all=False,
@@ -157,9 +165,10 @@ CHECKS = {
               "Oracle: every call/handler observes exactly its own envelope contents in its own order and nothing else (tokens, request metadata, trailer metadata, echoes per id); the opening ids on the wire are pairwise distinct and as many as calls. "
               "Non-trivial = an interleaving with >=1 switch between calls, or a burst of >=8 concurrent starts; distinct = distinct (side, shape, interleaving)."
               " Payloads are 4-byte tokens or padded to 1100..20000 bytes with a per-call fill. ids: bursts optionally leave the id-allocation point through the spin barrier, and optionally keep all eight unary workers busy for 20 ms of virtual time while the rest of the burst arrives."
-              " Bursts are spread over 1..3 connections of one Server object."),
+              " Bursts are spread over 1..3 connections of one Server object."
+              " leftover: 2..6 streams follow one another on one connection, each handler reads only a prefix of what its caller sends and returns; every handler receives a prefix of its own caller's messages and nothing a predecessor left unread."),
         jobs=[dict(test="TestC05Enum", kind="enum", quick=1, thorough=1), dict(test="TestC05", quick=3200, thorough=20000), dict(test="TestC05IDs", quick=1280, thorough=8000),
-              dict(test="TestC05History", kind="enum", quick=1, thorough=1, shards=1), dict(test="TestC05Reuse", quick=200, thorough=2000, shards=4)],
+              dict(test="TestC05History", kind="enum", quick=1, thorough=1, shards=1), dict(test="TestC05Reuse", quick=200, thorough=2000, shards=4), dict(test="TestC05Left", quick=1600, thorough=16000)],
         floors={"TestC05:side=client": 0.25, "TestC05:side=server": 0.25, "TestC05:pooled_payloads=true": 0.3, "TestC05IDs:slow_handlers=true": 0.3, "TestC05IDs:spin_barrier=true": 0.4},
         assumptions=COMMON_ASSUMPTIONS,
     ),
@@ -182,7 +191,8 @@ CHECKS = {
               "Oracle model.Chain: server interceptors and handler each entered and exited exactly once per RPC, nested in registration order; the handler sees the composed request and metadata, the caller the reverse-composed reply or mapped error; "
               "per stats handler and RPC tag: Begin first, exactly one Begin and one End, End.Error==nil iff the RPC succeeded on that side, no event without the tag, TagRPC once per RPC (server side may see none for an RPC that never reached it); exactly one ConnBegin and ConnEnd per connection per handler. "
               "Non-trivial = chain length >=3, or a non-ok outcome, or >=2 stats handlers on a side."
-              " Further drawn dimensions: handler errors that are or wrap io.EOF (the caller must see a failure and End.Error must be non-nil), transport failures with the error values of kit.FaultErrKinds, and for unary ok calls a cancellation issued from inside a client stats handler at the reply's InPayload event (the call succeeds, so End.Error must be nil)."),
+              " Further drawn dimensions: handler errors that are or wrap io.EOF (the caller must see a failure and End.Error must be non-nil), transport failures with the error values of kit.FaultErrKinds, and for unary ok calls a cancellation issued from inside a client stats handler at the reply's InPayload event (the call succeeds, so End.Error must be nil)."
+              " One Server serves two unary and two stream methods; each RPC of a case calls one of them (drawn); server interceptors record the FullMethod they are told, which must be the called one."),
         jobs=[dict(test="TestC20", quick=4800, thorough=30000), dict(test="FuzzC20", kind="fuzz", quick=0, thorough=90), dict(test="TestC20Overlap", quick=400, thorough=4000, shards=4)],
         floors={"TestC20:outcome=cancel": 0.08, "TestC20:outcome=transport": 0.06, "TestC20:outcome=openfail": 0.05, "TestC20:chain=6": 0.08, "TestC20:single=true": 0.03, "TestC20:unread=true": 0.02, "TestC20:late_cancel=true": 0.02, "TestC20:handler_error=eof": 0.02, "TestC20:transport_error=eof": 0.004},
         assumptions=COMMON_ASSUMPTIONS + ["a caller's cancellation of a unary call is not conveyed to the server by goat (no reset for unary calls); the harness releases such handlers itself"],
@@ -221,7 +231,7 @@ CHECKS = {
               "rpc: the C01/C02 generators from 2..4 logical clients through one shared transport into one Server via Demux keyed by source, same oracles. Non-trivial = >=2 keys, a Cancel or a Stop."
               " storm: a feeder goroutine writes 1..4 envelopes for each of 2..24 keys without pausing while a second goroutine cancels a drawn subset of the keys; never-cancelled keys are announced once and receive everything in order, cancelled keys never see duplicates, reordering or foreign envelopes. writefault: one write on the shared transport fails (drawn error value); later arrivals for the key are still delivered, other keys are undisturbed, Cancel still works."),
         jobs=[dict(test="TestC18", quick=6400, thorough=80000), dict(test="TestC18RPC", quick=320, thorough=8000), dict(test="TestC18Parked", quick=300, thorough=3000, shards=4), dict(test="TestC18Storm", quick=1600, thorough=16000), dict(test="TestC18WriteFault", quick=640, thorough=6400), dict(test="FuzzC18", kind="fuzz", quick=0, thorough=90)],
-        floors={"TestC18:cancel=true": 0.3, "TestC18:stop=true": 0.03, "TestC18:cancel_while_parked=true": 0.03, "TestC18Storm:storm.cancels=true": 0.5},
+        floors={"TestC18:cancel=true": 0.3, "TestC18:stop=true": 0.03, "TestC18:cancel_while_parked=true": 0.03, "TestC18Storm:storm.cancels=true": 0.5, "TestC18Storm:storm.write_faults=true": 0.1},
         assumptions=COMMON_ASSUMPTIONS,
     ),
     "C19": dict(
@@ -235,7 +245,7 @@ CHECKS = {
               " concurrent-writers: 2..8 goroutines write 1..3 envelopes each on one connection of each transport at the same time (goat's own callers do); every envelope is read exactly once, unchanged, and each writer's envelopes stay in that writer's order."),
         jobs=[dict(test="TestC19RoundTrip", quick=480, thorough=8000), dict(test="TestC19Raw", quick=800, thorough=20000), dict(test="TestC19Ctx", quick=48, thorough=400, shards=8),
               dict(test="TestC19Idle", quick=400, thorough=6000, shards=8), dict(test="TestC19Conc", quick=320, thorough=4000), dict(test="FuzzC19Decode", kind="fuzz", quick=0, thorough=120)],
-        floors={"TestC19RoundTrip:rt.websocket": 0.25, "TestC19RoundTrip:rt.http": 0.2, "TestC19RoundTrip:rt.channel": 0.1, "TestC19Conc:conc.http": 0.25},
+        floors={"TestC19RoundTrip:rt.websocket": 0.25, "TestC19RoundTrip:rt.http": 0.2, "TestC19RoundTrip:rt.channel": 0.1, "TestC19Conc:conc.http": 0.25, "TestC19Idle:idle.fresh=true": 0.15},
         assumptions=COMMON_ASSUMPTIONS + ["WebSocket and HTTP sub-checks use real loopback sockets and wall-clock budgets; exceeding a budget is reported as inconclusive (exit 2), never as a violation"],
         timeout_quick=600,
     ),
